@@ -158,7 +158,8 @@ CHECKS = {
              "objects and PINs must be identical, a PIN being changed must accept exactly old or new, the written object must be absent/old/new, no other object may "
              "be visible, and the token must stay writable.",
         engine="fsx (ptrace syscall tracer) + p11sh",
-        note="Fault model: process death (completed syscalls are durable; no torn or reordered writes); 38 crash states of the in-place rewrite / multi-transaction "
+        note="Fault model: process death (completed syscalls are durable; nothing is reordered; a multi-write store can be cut between two write() calls - the torn-write ladder "
+             "places that cut on every offset of the trailing attribute records); 43 crash states of the in-place rewrite / multi-transaction "
              "creation protocol are genuine defects recorded in known_findings.json, every other signature raises a VIOLATION."),
     "C15": dict(
         category="model_checking", design_ref="DESIGN.md 3/C15",
@@ -174,14 +175,15 @@ CHECKS = {
     "C18": dict(
         category="model_checking", design_ref="DESIGN.md 3/C18",
         technique="stateless model checking of the real library under a deterministic scheduler injected through the C_Initialize mutex callbacks: every schedule with at most k preemptions (iterative context bounding, k=1..3 chosen per body by a schedule budget and reported) at LockMutex / thread start / thread end points, each executed in a fresh process image; linearizability oracle = outcomes of all sequential call orders run on the same library",
-        text="16 harness bodies (2-3 threads with their own sessions, 1-3 calls each, forced to collide on the session table, handle table, session object store, "
-             "token object store, secure data manager and login state; one body on two tokens); ~27 000 (quick) schedules. Every schedule must terminate without "
+        text="26 harness bodies (2-3 threads with their own sessions, 1-3 calls each, forced to collide on the session table, handle table, session object store, "
+             "token object store, secure data manager and login state; one body on two tokens); ~45 000 (quick) schedules, AddressSanitizer build in both tiers. Every schedule must terminate without "
              "deadlock, process death, ASan report or mutex-protocol violation, and its abstracted outcome (return codes, outputs, handle identity classes, final "
              "observations) must equal the outcome of one of the sequential interleavings of the same calls.",
         engine="p11sh RUNTHREADS (baton scheduler behind CK_C_INITIALIZE_ARGS mutex callbacks) driven by checks/c18_threads.py",
         note="Scheduling points are the application mutex callbacks: code between two lock operations runs atomically, so unsynchronised accesses that never meet a "
-             "lock are not interleaved (no TSan side pass). File store only (as the property states). Six outcomes in three bodies (half-created object visible to a "
-             "search, attribute read racing with destroy, operation racing with logout) are genuine linearizability defects recorded in known_findings.json."),
+             "lock are not interleaved (no TSan side pass). File store only (as the property states). Thirteen outcomes in seven bodies (half-created object visible to a "
+             "search, attribute read / copy racing with destroy, double destroy, torn multi-attribute read, operation racing with logout, and a heap use after free when "
+             "C_CloseAllSessions races with C_OpenSession) are genuine defects recorded in known_findings.json."),
 }
 
 NOT_YET = "check under construction in this session; not claimed yet (DESIGN.md Appendix D gives the build order)"
